@@ -136,6 +136,12 @@ def make_objective(name, np, ub, rettype):
         # exact rational costs (fractions.Fraction), not dyadic
         import fractions
         return lambda x: fractions.Fraction(int(np.sum(np.minimum(np.abs(np.nan_to_num(np.asarray(x, dtype=float))) * 64.0, 1e15).astype(np.int64))), 3)
+    if name == 'longdbl':
+        # evaluated in extended precision and returned as such (np.longdouble): most values are not doubles
+        return lambda x: np.sum(np.asarray(x, dtype=np.longdouble) ** 2) + np.longdouble(1) / np.longdouble(3)
+    if name == 'arr1':
+        # the value as a one-element array the caller owns (what `np.sum(x ** 2, axis=0)` gives on one dimension): a mutable object
+        return lambda x: np.sum(np.asarray(x, dtype=float) ** 2, axis=0).reshape(-1)[:1].copy()
     if name == 'plateau':
         return lambda x: conv(np.floor(np.sum(np.abs(x))))
     if name == 'constant':
@@ -766,7 +772,14 @@ def record_run(cfg):
     events = REC.events
     rec = dict(cfg=cfg, events=events, error=None, history=None)
     try:
-        sp, opt, fn, of = build_task(L, cfg, events)
+        if cfg.get('adv_init'):
+            # the draws of the *construction* are adversarial too (exactly the low end, the last double below the high end): the
+            # initial population is what the first sweep evaluates, unclipped
+            REC.adv_q, REC.adv_rng, REC.in_hook, REC.active = float(cfg['adv_init']), random.Random(cfg['seed'] ^ 0x1A17), False, True
+        try:
+            sp, opt, fn, of = build_task(L, cfg, events)
+        finally:
+            REC.active = False
     except Exception as ex:
         rec['error'] = dict(phase='build', type=type(ex).__name__, msg=str(ex)[:300], tb=traceback.format_exc()[-1500:])
         return rec
